@@ -54,7 +54,8 @@ class C20(Check):
 
     def bounds(self, tier):
         return {'iteration_limit': '1..3' if tier == 'quick' else '1..4 (phase faults 1..5)', 'K': '2..3' if tier == 'quick' else '2..4', 'fault position': 'symbolic (round, cluster) / (round, phase)', 'fault class': 'Exception, AttributeError, IndexError, ValueError, RuntimeError (subclasses)', 'front end': 'single and joint',
-                'multiprocessing env': ['unset', 'set'], 'num_processors': '1..3'}
+                'multiprocessing env': ['unset', 'set'], 'num_processors': '1..3',
+                'donor budget': 'every size vector with K..%d points, K as above, m 1..3, real repopulation + statistics' % (6 if tier == 'quick' else 8)}
 
     def configs(self, tier):
         cfgs = []
@@ -65,6 +66,9 @@ class C20(Check):
                                    split=3, witness_every=37))
         cfgs.append(Config('phase_fault', self.phase_fault, {'K': 2, 'limmax': 3 if tier == 'quick' else 5}, split=3, witness_every=5))
         cfgs.append(Config('donor_shortage', self.donor_shortage, {}))
+        for K in ((2, 3) if tier == 'quick' else (2, 3, 4)):
+            cfgs.append(Config('donor_budget_K%d' % K, self.donor_budget,
+                               {'K': K, 'Pmax': 6 if tier == 'quick' else 8, 'mmax': 3}, split=3, witness_every=7))
         cfgs.append(Config('wrong_input', self.wrong_input, {}))
         return cfgs
 
@@ -205,6 +209,58 @@ class C20(Check):
                 raised = exc
         c.prove('donor_shortage_is_runtime_error',
                 res is None and raised is not None and 'donor' in str(raised).lower())
+        c.prove('pool_released_when_call_raises', len(ml.pools) == 1 and ml.pools[0].released)
+
+    def donor_budget(self, c, K, Pmax, mmax):
+        """Round 0 ends with an arbitrary size vector; round 1 starts with the REAL repopulation and the
+        REAL statistics step.  Independent oracle: a cluster of s >= 2m points can serve s//m - 1 refills,
+        so the call must raise the donor RuntimeError iff the refills on offer are fewer than the clusters
+        holding fewer than 2 points -- also when the shortage appears part-way through."""
+        Rp = self.R
+        m = int(c.int('m', 1, mmax))
+        sizes = [int(c.int('size_%d' % k, 0, Pmax)) for k in range(K)]
+        P = sum(sizes)
+        if P < max(2, K) or P > Pmax:      # the initial labelling i % K must give every cluster a point
+            raise core.PathAbort()
+        joint = bool(int(c.int('joint', 0, 1)))
+        needy = [k for k in range(K) if sizes[k] < 2]
+        if not needy:
+            raise core.PathAbort()
+        offered = sum(sz // m - 1 for sz in sizes if sz >= 2 * m)
+        must_raise = offered < len(needy)
+        blocks = [k for k in range(K) for _ in range(sizes[k])]
+        c.notes.update({'kind': 'donor_budget', 'K': K, 'm': m, 'sizes': sizes, 'joint': joint})
+        data = np.zeros((P, 1))
+        ml = MainLoop(Rp, c, K, 1, modes={'initial': 'summary', 'repopulate': 'real', 'statistics': 'real'},
+                      label_hook=lambda r, T: list(blocks) if r == 0 else [(i + r) % K for i in range(T)])
+        ml.s_initial = lambda k, d: [i % K for i in range(len(d))]
+        stubs.install_linalg(norm=stubs.NormOracle('spread'))
+        old_random = Rp.cm.random
+        Rp.cm.random = stubs.StubRandom()
+        raised, res = None, None
+        try:
+            with ml:
+                try:
+                    kw = dict(window_size=1, num_clusters=K, iteration_limit=2, min_cluster_size=m,
+                              sparsity_weight=0.1, label_switching_cost=1.0, biased_covariance=True)
+                    if joint:
+                        cut = max(1, P // 2)
+                        res = Rp.front_end.ticc_joint_labels([data[:cut], data[cut:]], **kw)
+                    else:
+                        res = Rp.front_end.ticc_labels(data, **kw)
+                except (core.PathAbort, core.Unsupported, core.HarnessError):
+                    raise
+                except Exception as exc:
+                    raised = exc
+        finally:
+            Rp.cm.random = old_random
+        c.outputs['raised'] = 1 if raised is not None else 0
+        if must_raise:
+            ok = res is None and isinstance(raised, RuntimeError) and 'donor' in str(raised).lower()
+        else:
+            ok = raised is None and res is not None
+        c.prove('donor_shortage_is_runtime_error', ok,
+                detail={'must_raise': must_raise, 'raised': repr(raised), 'sizes': sizes, 'm': m})
         c.prove('pool_released_when_call_raises', len(ml.pools) == 1 and ml.pools[0].released)
 
     def wrong_input(self, c):
